@@ -1,0 +1,21 @@
+//go:build !verif
+
+package server
+
+// Verification trace points of the UDP job walk. Without the "verif" build
+// tag the trace call is an empty function the compiler inlines away: no
+// code, no allocation, nothing on the serve path.
+const (
+	verifUDPTake = iota + 1
+	verifUDPTransition
+	verifUDPQueued
+	verifUDPOverflow
+	verifUDPStage
+	verifUDPBurstAdd
+	verifUDPSendNow
+	verifUDPSendDirect
+	verifUDPSendBatch
+	verifUDPRelease
+)
+
+func verifTraceUDP(uint8, *udpJob, uint8, uint8, []byte) {}
